@@ -6,13 +6,29 @@
 #include <time.h>
 #include <sys/time.h>
 
+#include <stdlib.h>
 static long long off_ns = 0;
+/* VERIF_CLOCK_RATE=<r>: time runs r times faster than real time (clock skew), per clock id,
+ * measured from the first reading of that clock */
+static long long rate = 0;
+static struct timespec first[16];
+static int have_first[16];
 
 void verif_clock_advance(long long ns) { __atomic_add_fetch(&off_ns, ns, __ATOMIC_SEQ_CST); }
 long long verif_clock_offset(void) { return __atomic_load_n(&off_ns, __ATOMIC_SEQ_CST); }
 
-static void shift(struct timespec *ts) {
+static void shift(clockid_t id, struct timespec *ts) {
     long long o = verif_clock_offset();
+    if (rate == 0) {
+        const char *e = getenv("VERIF_CLOCK_RATE");
+        rate = e ? atoll(e) : 1;
+        if (rate < 1) rate = 1;
+    }
+    if (rate > 1 && id >= 0 && id < 16) {
+        if (!have_first[id]) { first[id] = *ts; have_first[id] = 1; }
+        long long d = (long long)(ts->tv_sec - first[id].tv_sec) * 1000000000LL + (ts->tv_nsec - first[id].tv_nsec);
+        o += d * (rate - 1);
+    }
     long long ns = (long long)ts->tv_nsec + o % 1000000000LL;
     ts->tv_sec += o / 1000000000LL + ns / 1000000000LL;
     ts->tv_nsec = ns % 1000000000LL;
@@ -22,7 +38,7 @@ int clock_gettime(clockid_t id, struct timespec *ts) {
     static int (*real)(clockid_t, struct timespec *) = 0;
     if (!real) real = (int (*)(clockid_t, struct timespec *))dlsym(RTLD_NEXT, "clock_gettime");
     int r = real(id, ts);
-    if (r == 0 && id != CLOCK_PROCESS_CPUTIME_ID && id != CLOCK_THREAD_CPUTIME_ID) shift(ts);
+    if (r == 0 && id != CLOCK_PROCESS_CPUTIME_ID && id != CLOCK_THREAD_CPUTIME_ID) shift(id, ts);
     return r;
 }
 
